@@ -149,6 +149,28 @@ def make_weights(rng=None):
 DEFAULT_WEIGHTS = make_weights()
 
 
+# Characters that Python's str.upper()/str.lower()/casefold() turn into ASCII letters although they are not ASCII: code
+# that compares keywords through those methods instead of ASCII-only tables accepts them, ASCII-only code does not.
+_FOLD_LOOKALIKES = {"i": "\u0131", "I": "\u0131", "s": "\u017f", "S": "\u017f", "k": "\u212a", "K": "\u212a"}
+_KEYWORD_ATOMS = ["<!DOCTYPE html PUBLIC \"-//W3C//DTD HTML 4.01//EN\">", "<!DOCTYPE html SYSTEM \"about:legacy-compat\">",
+                  "<!doctype html public 'x' 'y'>", "<!DOCTYPE html system 'x'>", "<svg><![CDATA[x]]></svg>", "<script>x</script>",
+                  "<title>t</title>", "<textarea>x</textarea>", "<style>x</style>", "<plaintext>", "<!DOCTYPE html>", "<listing>\nx",
+                  "<isindex>", "<svg><desc><b>x", "<kbd>x</kbd>", "<Kbd>", "&Kscr;", "&isin;", "&sim;", "<select><keygen>", "<basefont>",
+                  "<input type=hidden>", "<frameset>", "<noscript>x</noscript>", "<ins>", "<s>x</s>", "<strike>", "<small>"]
+
+
+def fold_lookalike(rng, atoms):
+    """Replace one ASCII i/s/k of a keyword-bearing atom by its case-folding look-alike."""
+    idx = [k for k, a in enumerate(atoms) if any(c in _FOLD_LOOKALIKES for c in a)]
+    if not idx:
+        return atoms
+    k = rng.choice(idx)
+    a = atoms[k]
+    pos = [j for j, c in enumerate(a) if c in _FOLD_LOOKALIKES]
+    j = rng.choice(pos)
+    return atoms[:k] + [a[:j] + _FOLD_LOOKALIKES[a[j]] + a[j + 1:]] + atoms[k + 1:]
+
+
 def soup(rng, surrogates_ok=False, max_atoms=40, long_prob=0.05):
     """A list of atoms."""
     weights = make_weights(rng)
@@ -158,6 +180,12 @@ def soup(rng, surrogates_ok=False, max_atoms=40, long_prob=0.05):
     n = rng.randint(1, max_atoms)
     for _ in range(n):
         atoms.append(atom(rng, surrogates_ok, weights))
+    if rng.random() < 0.1:
+        # a keyword spelled with a case-folding look-alike, usually preceded by few other atoms
+        atoms = atoms[:rng.randint(0, 3)] + [rng.choice(_KEYWORD_ATOMS)] + atoms[3:6]
+        atoms = fold_lookalike(rng, atoms)
+    elif rng.random() < 0.03:
+        atoms = fold_lookalike(rng, atoms)
     if rng.random() < long_prob:
         atoms = _make_long(rng, atoms, surrogates_ok)
     return atoms
